@@ -141,6 +141,9 @@ def families(tier):
             main = [('disp', 'A', 'P', 'ff'), ('pause',), ('idle', 'A'), ('reoffer', 'A'), ('idle', 'A')]
         out.append(dict(prop='C01', family='c01.retry_after_reject', id=f'c01.retry_after_reject/K{K}-h{hist}-{src}', params=dict(K=K), cfg=dict(bound=1, cap=60, window=0.25, max_targets=1, busy=False),
                         scn=dict(buses={'A': dict(hist=hist)}, handlers=hs, main=main, actors=[], forwards=[], order=['A'], settle=3.0, no_watch=True)))
+    # the grammar-generated corpus shared by the bus properties (vsched/gen.py), judged by this property's oracle
+    from .. import gen
+    out += gen.family('C01', tier, timeouts=(None,), allow_tmo_await=False)
     return out
 
 
